@@ -72,6 +72,10 @@ func (srv *Server) addNetworkDelay(sender hotstuff.ID) {
 	if !srv.lm.Enabled() {
 		return
 	}
+	if _, ok := srv.config.ReplicaInfo(sender); !ok {
+		// the latency matrix only knows the configured replicas
+		return
+	}
 	delay := srv.lm.Latency(srv.id, sender)
 	srv.logger.Debugf("Delay between %s and %s: %v\n", srv.lm.Location(srv.id), srv.lm.Location(sender), delay)
 	srv.lm.Delay(srv.id, sender)
